@@ -62,7 +62,8 @@ Inductive case :=
 | CMut (field : N) (t t' : tx) (coins coins' : list coin) (o o' : obs)
 | CV4Txid (ver branch : N) (txid sha : bytes)
 | CV4Tx (tag : N) (t : tx4) (o : obs4)
-| CV4Mut (field : N) (t t' : tx4) (o o' : obs4).
+| CV4Mut (field : N) (t t' : tx4) (o o' : obs4)
+| CVec (zip : N) (expected observed : bytes).   (* a published ZIP 143/243/244 vector value *)
 
 Definition is_nil {A} (l : list A) : bool := match l with [] => true | _ => false end.
 Definition eval_opt (d : option dig) : option bytes := option_map eval d.
@@ -164,6 +165,7 @@ Definition prop_case (c : case) : bool :=
       && bytes_eqb txid sha && bytes_eqb txid' sha' && Bool.eqb (bytes_eqb txid txid') (tx4_eqb t t')
       (* signature hashes: equal exactly when what ZIP 143/243 define them to cover is equal *)
       && mut4_sigs_ok t t' o o'
+  | CVec _ e o => bytes_eqb e o
   end.
 
 (** * Model versus the implementation's component digests *)
@@ -234,4 +236,5 @@ Definition tag_case (c : case) : N :=
   | CV4Txid v _ _ _ => 300 + v
   | CV4Tx tag t _ => 310 + 10 * tag + (if is_v4 (t4_ver t) then 1 else 0)
   | CV4Mut f t _ _ _ => 400 + (if is_v4 (t4_ver t) then 100 else 0) + f
+  | CVec z _ _ => 1000 + z
   end.
